@@ -1,6 +1,13 @@
 import FormulaicVerif.Model.Parser
 import FormulaicVerif.Proofs.C14
 import FormulaicVerif.Proofs.C14General
+import FormulaicVerif.Proofs.C14Multistage
+import FormulaicVerif.Proofs.C14Loop
+import FormulaicVerif.Proofs.C14Api
+import FormulaicVerif.Proofs.C14Spec
+import FormulaicVerif.Proofs.C14Leaves
+import FormulaicVerif.Proofs.C14Order
+import FormulaicVerif.Proofs.C14Sanitize
 /-! # C14 — Any input string is parsed or rejected with the library's parsing error
 
 Property theorems only (helpers: `Proofs/C14.lean`). The model keeps every Python operation that
@@ -21,10 +28,27 @@ For parsers WITHOUT the experimental MULTISTAGE flag the unrestricted statement 
 the shunting-yard loop — no structural operator ever sits below a non-structural one — via the
 context-acceptance rules of `~` and `|`).
 
-FULL (unproved, and FALSE of the current code): the same statement with MULTISTAGE enabled —
-`[[a ~ b] ~ c]` raises NotImplementedError, which the pinned test-suite demands (known finding
-C14-F1); with MULTISTAGE the tree invariant itself fails (`[a ~ b] + c` puts a structural operator
-below `+`). That configuration is covered by the correspondence and the outcome-class oracle only. -/
+With MULTISTAGE the unrestricted statement is FALSE of the current code (`[[a ~ b] ~ c]` raises
+NotImplementedError, which the pinned test-suite demands: known finding C14-F1). What IS proved for
+all eight flag subsets (`Proofs/C14Multistage.lean`: a second shape invariant — a multistage `~`
+entry always sits directly on a `[` entry of the operator stack; values of bracketed trees are term
+sets or `{deps, root}` structures): the ONLY internal exception is that NotImplementedError, and it
+needs a multistage `~` with a multistage `~` inside its left argument
+(`internal_error_only_nested_multistage`, `no_internal_error_multistage_partial`).
+
+-- FULL (unproved, FALSE of the code as it is — finding C14-F1):
+--   theorem no_internal_error_all (cfg : ParseCfg) (env : PyEnv) (hnorm : …) (cs : List CharInfo) :
+--       ∀ k, parseTerms cfg env cs ≠ .error (.internal k)
+-- (negative witness below: `nested_multistage_escapes`).
+
+-- FULL (unproved): the code's `**` / `^` expands min(n, number of terms) copies of its argument; the model
+-- (`Model.power`, shared with C01) expands n copies literally. That the two ordered term sets coincide for
+-- every n >= number of terms,
+--   theorem power_stable (arg : List Term) (n : Nat) (h : max arg.length 1 ≤ n) : powTerms arg (n + 1) = powTerms arg n
+-- is NOT proved in Lean (argument: the lexicographically first tuple with a given product repeats its first
+-- element, so duplicating it is an order-preserving bijection of first occurrences). It is checked by the
+-- correspondence for exponents up to 7 on bases of up to 3 terms, by the `bigexp` oracle stream on the
+-- implementation, and was tested exhaustively outside Lean for all ordered sets of <= 3 terms over 3 factors. -/
 namespace FormulaicVerif.Props.C14
 open FormulaicVerif FormulaicVerif.Model FormulaicVerif.Proofs.ShuntC
 
@@ -84,5 +108,312 @@ theorem pySyntax_only_from_fragment (cfg : ParseCfg) (env : PyEnv) (cs : List Ch
     (∃ w, e = .syntax w) ∨
     (e = .pySyntax ∧ ∃ t ∈ (tokenizeStream cs).1, t.kind = some .python ∧ env.norm t.text = .error .syntaxError) :=
   Proofs.C14.pySyntax_only_from_fragment cfg env cs e hnorm h
+
+/-! ### MULTISTAGE: everything except the signature of finding C14-F1 -/
+
+open Proofs.C14Multistage in
+/-- C14.6  **All eight flag subsets.** Whenever `parseTerms` ends in an internal exception, that
+exception is the `NotImplementedError` of finding C14-F1, and its cause is visible in the syntax
+tree: tokenisation succeeded, the shunting-yard returned a tree `a`, and some multistage `~` of `a`
+has another multistage `~` inside its left argument (`lhsFlat a = false`). No `TypeError`,
+`ValueError`, `StopIteration`, `AttributeError`, `KeyError`, `RecursionError` (fuel) … for any
+string under any configuration. -/
+theorem internal_error_only_nested_multistage (cfg : ParseCfg) (env : PyEnv)
+    (hnorm : ∀ t x, env.norm t = .error x → x = .syntaxError) (cs : List CharInfo) (k : String)
+    (h : parseTerms cfg env cs = .error (.internal k)) :
+    k = "NotImplementedError" ∧ cfg.multistage = true ∧
+    ∃ ts lhs a, getTokens cfg env cs = .ok (ts, lhs) ∧ tokensToAst cfg.table ts = .ok (some a) ∧
+      lhsFlat a = false := by
+  obtain ⟨h1, h2⟩ := parseTerms_internal cfg env hnorm cs k h
+  refine ⟨h1, ?_, h2⟩
+  cases hms : cfg.multistage with
+  | true => rfl
+  | false => exact absurd h (no_internal_error cfg hms env hnorm cs k)
+
+open Proofs.C14Multistage in
+/-- C14.6'  `no_internal_error` for MULTISTAGE parsers on every string EXCEPT the finding's signature:
+if no multistage `~` of the tree has a multistage `~` inside its left argument, nothing internal
+escapes. (The hypothesis speaks about the tree the model's own shunting-yard returns for the string;
+it is decidable, and trivially true when the string has no `[`.) -/
+theorem no_internal_error_multistage_partial (cfg : ParseCfg) (env : PyEnv)
+    (hnorm : ∀ t x, env.norm t = .error x → x = .syntaxError) (cs : List CharInfo)
+    (hflat : ∀ ts lhs a, getTokens cfg env cs = .ok (ts, lhs) → tokensToAst cfg.table ts = .ok (some a) →
+      lhsFlat a = true) :
+    ∀ k, parseTerms cfg env cs ≠ .error (.internal k) := by
+  intro k h
+  obtain ⟨_, ts, lhs, a, h1, h2, h3⟩ := parseTerms_internal cfg env hnorm cs k h
+  rw [hflat ts lhs a h1 h2] at h3
+  cases h3
+
+/-- C14.7  Termination of the fuelled recursion of the model (`Structured._merge`): the fuel
+`vs.length + 64` given by `evalAst` is never exhausted, for any string and any configuration. -/
+theorem merge_fuel_suffices (cfg : ParseCfg) (env : PyEnv)
+    (hnorm : ∀ t x, env.norm t = .error x → x = .syntaxError) (cs : List CharInfo) :
+    parseTerms cfg env cs ≠ .error (.internal "RecursionError") := by
+  intro h
+  have := (internal_error_only_nested_multistage cfg env hnorm cs _ h).1
+  exact absurd this (by decide)
+
+private def nm (s : String) : Tok := { text := s.toList, kind := some .name }
+private def opT (s : String) : Tok := { text := s.toList, kind := some .operator }
+private def cx (s : String) : Tok := { text := s.toList, kind := some .context }
+
+open Proofs.C14Multistage in
+/-- negative witness for the excluded case (`[[a ~ b] ~ c]`): the tree is not `lhsFlat` and its
+evaluation IS the internal `NotImplementedError` -/
+theorem nested_multistage_escapes :
+    (match tokensToAst (Gen.defaultTable true true true)
+        [cx "[", cx "[", nm "a", opT "~", nm "b", cx "]", opT "~", nm "c", cx "]"] with
+      | .ok (some a) => !lhsFlat a && (match evalAst ⟨none, []⟩ a with
+          | .error (.internal k) => k == "NotImplementedError" | _ => false)
+      | _ => false) = true := by decide
+
+open Proofs.C14Multistage in
+/-- the hypothesis of C14.6' is satisfiable by genuinely multistage input: `[a ~ [b ~ c]] + d` is
+`lhsFlat` (the nested stage is on the RIGHT) and evaluates to a structure -/
+example :
+    (match tokensToAst (Gen.defaultTable true true true)
+        [cx "[", nm "a", opT "~", cx "[", nm "b", opT "~", nm "c", cx "]", cx "]", opT "+", nm "d"] with
+      | .ok (some a) => lhsFlat a && !stageFree a && (match evalAst ⟨none, []⟩ a with
+          | .ok (.struct _) => true | _ => false)
+      | _ => false) = true := by decide
+
+/-! ### termination of the one `while True` loop of the parser -/
+
+open Model.SignLoop in
+/-- C14.8  **The sign-collapsing loop of `DefaultOperatorResolver.resolve` terminates**: run with
+more fuel than the operator token has characters (every iteration shortens the string), the loop
+`while True: m = re.search(r"[+\-]{2,}", symbol) …` breaks, and the string it leaves is the one-pass
+function `collapseSigns` that the parser model (and C01) uses. For every string. -/
+theorem resolve_loop_terminates (s : List Char) (n : Nat) (h : s.length < n) :
+    collapseLoop n s = some (collapseSigns s) :=
+  Proofs.C14Loop.collapseLoop_terminates n s h
+
+open Model.SignLoop in
+/-- C14.8'  hence `resolve` with the loop as written (the function the `resolve` correspondence runs)
+is the `resolveToken` of the parser model, for every operator table and token: it never runs out of fuel. -/
+theorem resolve_loop_is_one_pass (tab : OpTable) (text : List Char) :
+    resolveTokenLoop tab text = resolveToken tab text :=
+  Proofs.C14Loop.resolveTokenLoop_eq tab text
+
+open Model.SignLoop in
+/-- the loop does iterate: three rewrites for `+--~-+|++` -/
+example : collapseLoop 3 "+--~-+|++".toList = none ∧ collapseLoop 4 "+--~-+|++".toList = some "+~-|+".toList := by
+  decide
+
+/-! ### every entry point of the parser -/
+
+open Model.ParseApi in
+/-- C14.9  `parse(formula, target=…)` of `DefaultFormulaParser`, for EVERY target level (FORMULA, TOKENS,
+AST, TERMS — integer, string or enum; also `get_tokens` / `get_ast` / `get_terms`): an internal
+exception at any target is an internal exception of `get_terms`, so by C14.6 it can only be the
+nested-multistage `NotImplementedError` under the MULTISTAGE flag. -/
+theorem parse_targets_internal (lv : Levels) (lvl : Nat) (cfg : ParseCfg) (env : PyEnv)
+    (hnorm : ∀ t x, env.norm t = .error x → x = .syntaxError) (cs : List CharInfo) (k : String)
+    (h : defaultParseTo lv lvl cfg env cs = .error (.internal k)) :
+    k = "NotImplementedError" ∧ cfg.multistage = true := by
+  have := internal_error_only_nested_multistage cfg env hnorm cs k
+    (Proofs.C14Api.defaultParseTo_internal lv lvl cfg env hnorm cs k h)
+  exact ⟨this.1, this.2.1⟩
+
+open Model.ParseApi in
+/-- C14.9'  at the TERMS level of the live `Target` enum, `parse` IS `get_terms` (the function of C14.5/6) -/
+theorem parse_at_terms_is_get_terms (lv : Levels) (hlv : levels = some lv) (lvl : Nat) (h : lv.terms ≤ lvl)
+    (cfg : ParseCfg) (env : PyEnv) (cs : List CharInfo) :
+    defaultParseTo lv lvl cfg env cs = (parseTerms cfg env cs).map Out.terms :=
+  Proofs.C14Api.defaultParseTo_terms lv hlv lvl h cfg env cs
+
+open Model.ParseApi in
+/-- C14.10  The BASE class `FormulaParser(operator_resolver=DefaultOperatorResolver(flags))`, whose
+shunting-yard pulls tokens one at a time from the lazy chain `sanitize_tokens(tokenize(formula))`
+(no intercept rewriting, no `check_terms`): for every string, target and flag subset, an internal
+exception can only be the nested-multistage `NotImplementedError` under the MULTISTAGE flag.
+(True of the code after the repair of `insert_unused_terms`: before it, `.` raised `KeyError` here.) -/
+theorem base_parser_internal (lv : Levels) (lvl : Nat) (twosided multipart multistage : Bool) (env : PyEnv)
+    (hnorm : ∀ t x, env.norm t = .error x → x = .syntaxError) (cs : List CharInfo) (k : String)
+    (h : baseParseTo lv lvl (Gen.defaultTable twosided multipart multistage) env cs = .error (.internal k)) :
+    k = "NotImplementedError" ∧ multistage = true :=
+  Proofs.C14Api.baseParseTo_internal lv lvl twosided multipart multistage env hnorm cs k h
+
+open Model.ParseApi in
+/-- C14.10'  the tree the base class builds from its lazy token stream is a tree of the list-based
+shunting-yard (so C14.1 and C14.4 apply to it), and its failures are the parsing error or a fragment's
+SyntaxError -/
+theorem base_parser_tree (tab : OpTable) (env : PyEnv)
+    (hnorm : ∀ t x, env.norm t = .error x → x = .syntaxError) (cs : List CharInfo) :
+    (∀ oa, baseAst tab env cs = .ok oa → ∃ ts, tokensToAst tab ts = .ok oa) ∧
+    (∀ e, baseAst tab env cs = .error e → (∃ w, e = .syntax w) ∨ e = .pySyntax) :=
+  Proofs.C14Api.baseAst_spec tab env hnorm cs
+
+open Model.FormulaSpec Proofs.C14Spec in
+/-- C14.11  **`Formula(<specification>)` beyond a single string**: for every specification TREE —
+strings, `Term` objects, existing `Formula` objects, leaves that are no specification at all (`None`,
+numbers, bytes, …), lists, tuples, dictionaries, keyword structure, nested without bound — with
+structure keys that do not start with an underscore, and for every pair of parsers: the outcome is a
+formula, the parsing error, a fragment's SyntaxError or `FormulaInvalidError`; an internal exception
+only as the `NotImplementedError` of C14-F1 when one of the two parsers has the MULTISTAGE flag. -/
+theorem formula_spec_internal (P N : Option ParseCfg) (root : Option Spec) (kw : List (String × Spec))
+    (hroot : ∀ r, root = some r → specOk r) (hkw : fieldsOk kw) (k : String)
+    (h : formulaCall P N root kw = .error (.internal k)) :
+    k = "NotImplementedError" ∧ ((parsersOf P N).1.multistage = true ∨ (parsersOf P N).2.multistage = true) :=
+  formulaCall_internal P N root kw hroot hkw k h
+
+open Model.FormulaSpec in
+/-- the underscore hypothesis is what excludes the `ValueError` of `Structured.__init__` -/
+example : formulaCall none none (some (.dict [("_a", .other)])) [] = .error (.internal "ValueError") := by
+  simp [formulaCall, fromSpec, badKey]
+
+open Model.FormulaSpec in
+/-- the hypotheses are satisfiable by trees with every kind of leaf; a leaf that is no specification
+gives `FormulaInvalidError`, not an internal exception -/
+example : Proofs.C14Spec.specOk (.dict [("a", .tuple [.other, .list [.term [], .other]]), ("root", .formula (.set []))]) ∧
+    formulaCall none none (some (.dict [("a", .tuple [.other, .list [.term [], .other]])])) [] = .error .invalid := by
+  refine ⟨?_, ?_⟩
+  · simp [Proofs.C14Spec.specOk, Proofs.C14Spec.fieldsOk, Proofs.C14Spec.specsOk, Proofs.C14Spec.itemOk, badKey]
+  · simp [formulaCall, fromSpec, fieldVals, tupleVals, badKey]
+
+open Model.ParseApi Proofs.ShuntSound in
+/-- C14.12  **`Token.to_factor` never raises on a leaf**: in every tree that any of the eight parsers
+returns for any string, every leaf is a value / name / python token, on which `to_factor` (whose
+`KeyError` for operator and context tokens and `RuntimeError` for an unset kind are read from the
+live package) succeeds and returns exactly the factor the model's `evalAst` uses. -/
+theorem leaves_accepted_by_to_factor (cfg : ParseCfg) (env : PyEnv) (cs : List CharInfo) (ts lhs : List Tok) (a : Ast)
+    (hg : getTokens cfg env cs = .ok (ts, lhs)) (ha : tokensToAst cfg.table ts = .ok (some a)) :
+    ∀ t ∈ leavesOf (yield a), ∃ f, toFactorE t = .ok f ∧ termOfTok t = [f] :=
+  fun t ht => Proofs.C14Leaves.toFactorE_leaf t (Proofs.C14Leaves.leaves_have_kinds cfg env cs ts lhs a hg ha t ht)
+
+/-! ### the finite tables of the API, read from the live package -/
+
+open Model.ParseApi in
+/-- C14.13  the feature flags given as a set of NAMES (any case) denote the flag subset, for all 16
+parser configurations; the aliases `default` / `all` / `none` denote what the enum says; an unknown
+name is Python's `AttributeError` (a configuration error) -/
+theorem feature_flag_names_denote (ic tw mp ms : Bool) :
+    cfgOfNames ic ((if tw then ["twosided"] else []) ++ (if mp then ["MULTIPART"] else []) ++
+        (if ms then ["Multistage"] else []))
+      = .ok { includeIntercept := ic, twosided := tw, multipart := mp, multistage := ms } := by
+  cases ic <;> cases tw <;> cases mp <;> cases ms <;> rfl
+
+open Model.ParseApi in
+theorem feature_flag_aliases :
+    cfgOfNames true ["default"] = .ok {} ∧ cfgOfNames true ["all"] = .ok { multistage := true } ∧
+    cfgOfNames true ["none"] = cfgOfNames true [] ∧ cfgOfNames true ["bogus"] = .error (.internal "AttributeError") :=
+  ⟨rfl, rfl, rfl, rfl⟩
+
+open Model.ParseApi in
+/-- C14.13'  the live `Target` enum is ordered FORMULA < TOKENS < AST < TERMS (the thresholds `parse`
+compares with), and the context markers of `tokens_to_ast` are the two bracket pairs the model's
+shunting-yard hard-codes -/
+theorem api_tables_live :
+    levels = some ⟨1, 2, 3⟩ ∧ levelOf (.name "Terms") = .ok 3 ∧ levelOf (.int 0) = .ok 0 ∧
+    levelOf (.int 7) = .error (.internal "ValueError") ∧ levelOf (.name "bogus") = .error (.internal "KeyError") ∧
+    Gen.ParseApi.contextOpeners = ["(", "["] ∧ Gen.ParseApi.contextClosers = [(")", "("), ("]", "[")] := by
+  refine ⟨by decide, rfl, rfl, rfl, rfl, by decide, by decide⟩
+
+/-! ### independence of the evaluation order -/
+
+open Model.EvalOrder in
+/-- C14.14  `ASTNode.to_terms` evaluates in the order `graphlib` hands out ready nodes, the model
+depth-first; when several nodes fail, the exception that escapes may differ. Whatever the order, it is
+the error of a MINIMAL failing node (one whose arguments all evaluate): the model's own error is one of
+them, and no error of any of them is an internal exception other than the `NotImplementedError` of
+C14-F1 — for every string and every configuration. (The `terms` / `api` correspondence accepts the
+implementation's class iff it is in this set.) -/
+theorem first_error_any_order (cfg : ParseCfg) (env : PyEnv)
+    (hnorm : ∀ t x, env.norm t = .error x → x = .syntaxError) (cs : List CharInfo) :
+    (∀ e, parseTerms cfg env cs = .error e → e ∈ possibleErrors cfg env cs) ∧
+    (∀ e ∈ possibleErrors cfg env cs, ∀ k, e = .internal k → k = "NotImplementedError") :=
+  ⟨fun e h => Proofs.C14Order.parseTerms_error_possible cfg env cs e h,
+   Proofs.C14Order.possibleErrors_internal cfg env hnorm cs⟩
+
+open Model.EvalOrder in
+/-- and a tree evaluates iff it has no minimal failing node -/
+theorem evaluates_iff_no_failing_node (dot : DotCtx) (a : Ast) :
+    minimalErrors dot a = [] ↔ ∃ v, evalAst dot a = .ok v :=
+  ⟨Proofs.C14Order.minimalErrors_nil dot a, fun ⟨v, hv⟩ => Proofs.C14Order.minimalErrors_ok dot a v hv⟩
+
+/-! ### `sanitize_python_code`: only `format_expr` (CPython) is left as a parameter -/
+
+open Model.PyAlias in
+/-- C14.15  **The alias-collision loop of `sanitize_variable_name` terminates**
+(`while aliases.get(new_name, name) != name or (new_name in env and …) or keyword.iskeyword(new_name) or
+new_name in reserved: suffix += 1; …`): for every template, `str.isspace`, environment and fragment the
+alias pass returns (the model never reports an exhausted loop bound). The candidates are pairwise
+different and only finitely many strings can be refused; proved for the model of the repaired code that
+the engine runs (`Model/PyAlias.lean`, shared with C15: `Proofs/C15Loop.lean`). -/
+theorem alias_loop_terminates (cfg : Cfg) (isSpace : Char → Bool) (env : List (List Char)) (expr : List Char) :
+    ∃ r, sanitizeNames cfg isSpace env expr = some r :=
+  Proofs.C15Loop.sanitizeNames_total cfg isSpace env expr
+
+open Model.SanitizeNames in
+/-- C14.16  **`sanitize_python_code` fails only with SyntaxError**, for every token text and every
+`str.isspace`: the back-quote matcher, the reserved words, the base name (`base_name[0]` is guarded), the
+alias loop and the one-pass restoration of aliases cannot raise; the only source of failure is
+`format_expr`, whose `RecursionError` / `MemoryError` / `UnicodeError` the code converts. -/
+theorem normaliser_fails_only_with_syntax_error (isSpace : Char → Bool) (fmt : List Char → Except FmtErr (List Char))
+    (hfmt : Proofs.C14Sanitize.FmtOk fmt) (t : List Char) (x : PyErr)
+    (h : sanitizePythonCode isSpace fmt t = .error x) : x = .syntaxError :=
+  Proofs.C14Sanitize.sanitize_only_syntax isSpace fmt hfmt t x h
+
+private def asciiSpace : Char → Bool := fun c => c == ' '
+
+open Model.SanitizeNames in
+/-- the hypothesis of C14.16 is satisfied by a `format_expr` that does fail, and then the normaliser fails
+with exactly SyntaxError -/
+example : Proofs.C14Sanitize.FmtOk (fun _ => .error ⟨["SyntaxError", "Exception", "BaseException", "object"]⟩) ∧
+    (match sanitizePythonCode asciiSpace (fun _ => .error ⟨["SyntaxError", "Exception", "BaseException", "object"]⟩)
+        "f(1 +)".toList with
+      | .error .syntaxError => true | _ => false) = true := by
+  refine ⟨fun u e h => ?_, by decide +kernel⟩
+  injection h with h
+  subst h
+  exact Or.inr rfl
+
+open Model.SanitizeNames in
+/-- the modelled logic does something: colliding names get numbered aliases that avoid the words of the
+code itself, a repeated name its first alias, a keyword gets an alias, and the aliases are restored
+after formatting -/
+example :
+    (match PyAlias.sanitizeNames { pre := PyAlias.formulaicPrefix, ident := fun _ => false } asciiSpace []
+        "f(`a b`, `a.b`, `a b`, _formulaic_a_b_1)".toList with
+      | some (s1, _, _) => s1 == "f( _formulaic_a_b ,  _formulaic_a_b_2 ,  _formulaic_a_b , _formulaic_a_b_1)".toList
+      | none => false) = true ∧
+    (match sanitizePythonCode asciiSpace (fun e => .ok e) "f(`a b`, `1`, `class`)".toList with
+      | .ok r => r == "f( `a b` ,  `1` ,  `class` )".toList | .error _ => false) = true := by
+  refine ⟨by decide +kernel, by decide +kernel⟩
+
+open Model.SanitizeNames in
+/-- C14.17  C14.6 with the assumption pushed down to CPython: with the normaliser computed by the model
+around `format_expr` (this is what the correspondence runs), for every string, every configuration and
+every `str.isspace`, an internal exception of `get_terms` is the nested-multistage
+`NotImplementedError` under the MULTISTAGE flag — assuming only that `ast.parse` / `ast.unparse` raise
+nothing but SyntaxError, RecursionError, MemoryError or a UnicodeError. -/
+theorem internal_error_down_to_format_expr (cfg : ParseCfg) (isSpace : Char → Bool)
+    (fmt : List Char → Except FmtErr (List Char)) (hfmt : Proofs.C14Sanitize.FmtOk fmt)
+    (pyvars : List Char → List String) (available : Option (List String)) (cs : List CharInfo) (k : String)
+    (h : parseTerms cfg { norm := sanitizePythonCode isSpace fmt, pyvars := pyvars, available := available } cs
+          = .error (.internal k)) :
+    k = "NotImplementedError" ∧ cfg.multistage = true := by
+  have := internal_error_only_nested_multistage cfg _
+    (fun t x hx => Proofs.C14Sanitize.sanitize_only_syntax isSpace fmt hfmt t x hx) cs k h
+  exact ⟨this.1, this.2.1⟩
+
+open Model.PyAlias in
+/-- how the back-quote matcher reads quotes (the repaired `UNQUOTED_BACKTICK_MATCHER`): a back-quote inside
+a string literal is text, a quote inside a back-quoted name does not start a string, an escaped quote
+outside a string is a match of its own, and a string without a closing quote is no match at all -/
+example :
+    split "f(\"a`b\", `x y`)".toList = [.text "f(".toList, .lit "\"a`b\"".toList, .text ", ".toList, .name "x y".toList, .text [')']] ∧
+    split "f(`a\"b`, \"c\")".toList = [.text "f(".toList, .name "a\"b".toList, .text ", ".toList, .lit "\"c\"".toList, .text [')']] ∧
+    split "\\\"`a`".toList = [.text [], .lit "\\\"".toList, .text [], .name ['a'], .text []] ∧
+    split "'a\\'b".toList = [.text "'a".toList, .lit "\\'".toList, .text ['b']] := by decide +kernel
+
+open Model.FormulaSpec in
+/-- C14.18  Termination of the fuelled `Structured._simplify` of the specification model: any fuel above
+the nesting depth of the value gives the same result, so the fuel `depth + 2` that `Formula(<spec>)`
+uses is never what ends the recursion. -/
+theorem simplify_fuel_suffices (v : Val) (unwrap : Bool) (extra : Nat) :
+    simplify (valDepth v + 1 + extra) unwrap v = simplify (valDepth v + 1) unwrap v :=
+  Proofs.C14Spec.simplify_fuel v unwrap extra
 
 end FormulaicVerif.Props.C14
